@@ -51,6 +51,7 @@ class StreamableHTTPTransport(Transport):
         # Request handling
         self._outgoing_task: Optional[asyncio.Task] = None
         self._request_semaphore = asyncio.Semaphore(self.max_concurrent_requests)
+        self._routed_count = 0  # messages delivered to the incoming stream
 
         # Memory streams for chuk_mcp message API
         self._incoming_send: Optional[MemoryObjectSendStream] = None
@@ -128,7 +129,33 @@ class StreamableHTTPTransport(Transport):
         """Send a message via HTTP POST with streamable response handling."""
         # Use semaphore to limit concurrent requests
         async with self._request_semaphore:
+            routed_before = self._routed_count
             await self._send_message_internal(message)
+
+            # A request must always get a terminal message: if the server's
+            # answer contained no message at all (empty or unparseable body),
+            # synthesise an error response so the caller does not wait forever
+            if isinstance(message, dict):
+                message_id = message.get("id")
+                is_request = message.get("method") is not None
+            else:
+                message_id = getattr(message, "id", None)
+                is_request = getattr(message, "method", None) is not None
+            if (
+                is_request
+                and message_id is not None
+                and self._routed_count == routed_before
+            ):
+                await self._route_response(
+                    {
+                        "jsonrpc": "2.0",
+                        "id": message_id,
+                        "error": {
+                            "code": -32603,
+                            "message": "No JSON-RPC message in HTTP response",
+                        },
+                    }
+                )
 
     async def _send_message_internal(self, message) -> None:
         """Internal message sending with proper SSE handling."""
@@ -455,12 +482,14 @@ class StreamableHTTPTransport(Transport):
                     future = self._pending_requests.pop(message_id)
                     if not future.done():
                         future.set_result(response_data)
+                        self._routed_count += 1
                         logger.debug(f"Completed pending request {message_id}")
                         return
 
             # Otherwise route to incoming stream
             if self._incoming_send:
                 await self._incoming_send.send(message)
+                self._routed_count += 1
                 logger.debug(
                     f"Routed message to incoming stream: {message.method or 'response'}"
                 )
